@@ -1,6 +1,8 @@
 package op
 
 import (
+	"math"
+
 	"github.com/berquerant/crd/errorx"
 	"github.com/berquerant/crd/util"
 	"gopkg.in/yaml.v3"
@@ -29,6 +31,10 @@ func (b *BPM) UnmarshalYAML(value *yaml.Node) error {
 func (b BPM) validate() error {
 	if b == 0 {
 		return errorx.Invalid("BPM should be positive")
+	}
+	// a MIDI file states the tempo as microseconds per quarter note in 24 bits
+	if us := math.Round(60000000 / float64(b)); us < 1 || us > 0xFFFFFF {
+		return errorx.Invalid("BPM %d cannot be written to a MIDI file", uint(b))
 	}
 	return nil
 }
